@@ -64,7 +64,16 @@ impl StatusCode {
     pub const OK: StatusCode = StatusCode(200);
     pub const CREATED: StatusCode = StatusCode(201);
     pub const NO_CONTENT: StatusCode = StatusCode(204);
+    pub const ACCEPTED: StatusCode = StatusCode(202);
+    pub const BAD_REQUEST: StatusCode = StatusCode(400);
     pub const UNAUTHORIZED: StatusCode = StatusCode(401);
+    pub const FORBIDDEN: StatusCode = StatusCode(403);
+    pub const NOT_FOUND: StatusCode = StatusCode(404);
+    pub const REQUEST_TIMEOUT: StatusCode = StatusCode(408);
+    pub const CONFLICT: StatusCode = StatusCode(409);
+    pub const TOO_MANY_REQUESTS: StatusCode = StatusCode(429);
+    pub const BAD_GATEWAY: StatusCode = StatusCode(502);
+    pub const GATEWAY_TIMEOUT: StatusCode = StatusCode(504);
     pub const INTERNAL_SERVER_ERROR: StatusCode = StatusCode(500);
     pub const SERVICE_UNAVAILABLE: StatusCode = StatusCode(503);
     #[must_use]
@@ -156,7 +165,12 @@ impl Future for SendFuture {
         let conn = self.conn.expect("connection");
         match sim::poll_head(conn) {
             sim::HeadState::Pending => Poll::Pending,
-            sim::HeadState::Ready(status) => Poll::Ready(Ok(Response { conn, status, read: 0 })),
+            sim::HeadState::Ready(status) => Poll::Ready(Ok(Response {
+                conn,
+                status,
+                read: 0,
+                headers: header::HeaderMap { entries: sim::response_headers(conn).into_iter().map(|(n, v)| (n.to_ascii_lowercase(), header::HeaderValue(v))).collect() },
+            })),
             sim::HeadState::Failed(what) => Poll::Ready(Err(Error { kind: Kind::Request, status: None, msg: what })),
         }
     }
@@ -168,6 +182,156 @@ pub struct Response {
     status: u16,
     /// number of body bytes already handed out through `chunk()`
     read: usize,
+    headers: header::HeaderMap,
+}
+
+/// Subset of http::header.
+pub mod header {
+    #[derive(Clone, Copy, Debug, PartialEq, Eq, Hash)]
+    pub struct HeaderName(pub(crate) &'static str);
+    impl HeaderName {
+        #[must_use]
+        pub fn as_str(&self) -> &str {
+            self.0
+        }
+    }
+    impl std::fmt::Display for HeaderName {
+        fn fmt(&self, f: &mut std::fmt::Formatter<'_>) -> std::fmt::Result {
+            f.write_str(self.0)
+        }
+    }
+    pub const RETRY_AFTER: HeaderName = HeaderName("retry-after");
+    pub const CONTENT_TYPE: HeaderName = HeaderName("content-type");
+    pub const CONTENT_LENGTH: HeaderName = HeaderName("content-length");
+    pub const LOCATION: HeaderName = HeaderName("location");
+    pub const WWW_AUTHENTICATE: HeaderName = HeaderName("www-authenticate");
+    pub const AUTHORIZATION: HeaderName = HeaderName("authorization");
+    pub const CONNECTION: HeaderName = HeaderName("connection");
+    pub const SERVER: HeaderName = HeaderName("server");
+    pub const DATE: HeaderName = HeaderName("date");
+    pub const ACCEPT: HeaderName = HeaderName("accept");
+    pub const USER_AGENT: HeaderName = HeaderName("user-agent");
+    pub const TRANSFER_ENCODING: HeaderName = HeaderName("transfer-encoding");
+
+    #[derive(Clone, Debug, PartialEq, Eq)]
+    pub struct ToStrError;
+    impl std::fmt::Display for ToStrError {
+        fn fmt(&self, f: &mut std::fmt::Formatter<'_>) -> std::fmt::Result {
+            f.write_str("failed to convert header to a str")
+        }
+    }
+    impl std::error::Error for ToStrError {}
+
+    #[derive(Clone, Debug, PartialEq, Eq)]
+    pub struct HeaderValue(pub(crate) String);
+    impl HeaderValue {
+        /// Like http: only visible ASCII (and blanks/tabs) converts.
+        pub fn to_str(&self) -> Result<&str, ToStrError> {
+            if self.0.bytes().all(|b| b == b'\t' || (32..127).contains(&b)) {
+                Ok(&self.0)
+            } else {
+                Err(ToStrError)
+            }
+        }
+        #[must_use]
+        pub fn as_bytes(&self) -> &[u8] {
+            self.0.as_bytes()
+        }
+        #[must_use]
+        pub fn len(&self) -> usize {
+            self.0.len()
+        }
+        #[must_use]
+        pub fn is_empty(&self) -> bool {
+            self.0.is_empty()
+        }
+    }
+    impl PartialEq<str> for HeaderValue {
+        fn eq(&self, o: &str) -> bool {
+            self.0 == o
+        }
+    }
+    impl PartialEq<&str> for HeaderValue {
+        fn eq(&self, o: &&str) -> bool {
+            self.0 == *o
+        }
+    }
+
+    pub trait AsHeaderName {
+        fn lower(&self) -> String;
+    }
+    impl AsHeaderName for HeaderName {
+        fn lower(&self) -> String {
+            self.0.to_ascii_lowercase()
+        }
+    }
+    impl AsHeaderName for &HeaderName {
+        fn lower(&self) -> String {
+            self.0.to_ascii_lowercase()
+        }
+    }
+    impl AsHeaderName for &str {
+        fn lower(&self) -> String {
+            self.to_ascii_lowercase()
+        }
+    }
+    impl AsHeaderName for String {
+        fn lower(&self) -> String {
+            self.to_ascii_lowercase()
+        }
+    }
+    impl AsHeaderName for &String {
+        fn lower(&self) -> String {
+            self.to_ascii_lowercase()
+        }
+    }
+
+    #[derive(Clone, Debug, Default, PartialEq, Eq)]
+    pub struct HeaderMap {
+        pub(crate) entries: Vec<(String, HeaderValue)>,
+    }
+    impl HeaderMap {
+        pub fn get<K: AsHeaderName>(&self, k: K) -> Option<&HeaderValue> {
+            let k = k.lower();
+            self.entries.iter().find(|(n, _)| *n == k).map(|(_, v)| v)
+        }
+        pub fn contains_key<K: AsHeaderName>(&self, k: K) -> bool {
+            self.get(k).is_some()
+        }
+        #[must_use]
+        pub fn len(&self) -> usize {
+            self.entries.len()
+        }
+        #[must_use]
+        pub fn is_empty(&self) -> bool {
+            self.entries.is_empty()
+        }
+        pub fn iter(&self) -> impl Iterator<Item = (&str, &HeaderValue)> {
+            self.entries.iter().map(|(n, v)| (n.as_str(), v))
+        }
+    }
+}
+
+/// `tokio::time::sleep` and friends are served by the same virtual clock (the stub crate named tokio forwards here).
+pub struct Sleep {
+    us: u64,
+    timer: Option<usize>,
+}
+#[must_use]
+pub fn virtual_sleep(d: std::time::Duration) -> Sleep {
+    Sleep { us: u64::try_from(d.as_micros()).unwrap_or(u64::MAX / 4), timer: None }
+}
+impl Future for Sleep {
+    type Output = ();
+    fn poll(mut self: Pin<&mut Self>, _cx: &mut Context<'_>) -> Poll<()> {
+        let us = self.us;
+        let id = *self.timer.get_or_insert_with(|| sim::set_timer(us));
+        if sim::timer_fired(id) {
+            Poll::Ready(())
+        } else {
+            Poll::Pending
+        }
+    }
 }
 
 /// Stand-in for bytes::Bytes (what `chunk()`/`bytes()` hand out).
@@ -215,6 +379,11 @@ impl Response {
     /// Streams the body: the bytes that arrived since the last call, `None` at the end of the body.
     pub fn chunk(&mut self) -> impl Future<Output = Result<Option<Bytes>, Error>> + '_ {
         ChunkFuture { resp: self }
+    }
+    /// The response headers (scripted by the simulated server).
+    #[must_use]
+    pub fn headers(&self) -> &header::HeaderMap {
+        &self.headers
     }
     #[must_use]
     pub fn content_length(&self) -> Option<u64> {
